@@ -189,3 +189,17 @@ Theorem C17_nesting_constants_match_source :
   forallb (fun c => memZ c nesting_chars_src) [34; 91; 92; 93; 123; 125]%list = true.
 Proof. exact nesting_constants_match_source. Qed.
 Print Assumptions C17_nesting_constants_match_source.
+
+(* the byte entry point as a whole, on the text of any document (compact rendering, any printer of numbers that uses no
+   brackets and no quotes): it is the document-tree decoder of the theorems above for documents that nest at most 10000
+   deep, and an error (zero value) for every deeper one -- so unknown properties, order, defaults and nulls behave through
+   UnmarshalFeatureFlag / UnmarshalSegment as stated above up to that depth *)
+From LD Require Import NestingCodec.
+Theorem C17_byte_entry_point_flag : forall (num : dy -> str), (forall d, forallb plain_byte (num d) = true) ->
+  forall v, unmarshal_flag_text num v = if jv_depth v <=? 10000 then decode_flag v else None.
+Proof. exact unmarshal_flag_text_spec. Qed.
+Print Assumptions C17_byte_entry_point_flag.
+Theorem C17_byte_entry_point_segment : forall (num : dy -> str), (forall d, forallb plain_byte (num d) = true) ->
+  forall v, unmarshal_segment_text num v = if jv_depth v <=? 10000 then decode_segment v else None.
+Proof. exact unmarshal_segment_text_spec. Qed.
+Print Assumptions C17_byte_entry_point_segment.
